@@ -156,7 +156,7 @@ PROPS = {
     },
     "C18": {
         "level": "model_checking",
-        "verus": [],
+        "verus": ["c18_from_args_helper"],
         "kani": [KANI_FORMATTER],
         "explanation": "bounded model checking (Kani/CBMC) of the real from_args / from_name_and_args code; "
                        "a stand-in, not a proof: list length is bounded",
